@@ -74,6 +74,13 @@ pub fn runaway_budget(len: usize) -> u64 {
     4096 * (len as u64 + 64)
 }
 
+/// Guard for compression, decompression and renaming: about ten times the densest legitimate case (one tick
+/// per label copied plus a walk of at most 16 pointers and 128 labels per dictionary hit), small enough that
+/// a change that makes those loops spin costs a fraction of a second per case rather than minutes.
+pub fn work_budget(len: usize) -> u64 {
+    1024 * (len as u64 + 256)
+}
+
 /// Run `f` with panics captured and the step budget armed.
 pub fn guarded<R>(budget: u64, f: impl FnOnce() -> R) -> Result<R, PanicInfo> {
     #[cfg(dnssector_verif)]
@@ -232,6 +239,7 @@ pub struct Ctx {
     pub cur_case: u64,
     pub exhaustive: bool,
     pub timed_out: bool,
+    pub nonterm: u32,
 }
 
 impl Ctx {
@@ -270,6 +278,9 @@ impl Ctx {
                 crate::model::msg::hex(input)
             );
         }
+        if signature.contains("non-termination") {
+            self.nonterm += 1;
+        }
         let key = format!("{}|{}", property, signature);
         let case = self.cur_case;
         let phase = self.cur_phase.clone();
@@ -287,6 +298,14 @@ impl Ctx {
             });
     }
     pub fn out_of_time(&mut self) -> bool {
+        // a tree on which the step budget keeps firing is already a violation; every further such case burns a
+        // whole budget, so the phase is cut short (the run reports the violation, never "held")
+        if self.nonterm >= 8 {
+            if !self.notes.iter().any(|n| n.starts_with("stopped early")) {
+                self.notes.push("stopped early: the step budget was exceeded 8 times".into());
+            }
+            return true;
+        }
         if self.start.elapsed().as_secs_f64() > self.time_cap_s {
             self.timed_out = true;
             true
